@@ -27,6 +27,7 @@ type KnownFinding struct {
 type LockFile struct {
 	Note        string              `json:"note"`
 	Obligations map[string][]string `json:"obligations"` // property -> obligation names
+	DeadCanaries []string           `json:"dead_canaries,omitempty"` // reachability probes that are refuted on the unchanged tree (dead code, e.g. a redundant nil check)
 }
 
 func loadKnown() ([]KnownFinding, error) {
@@ -284,8 +285,12 @@ func cmdCheck(prop, tier string, jobs int) int {
 			report(ob, "locked obligation vanished")
 		}
 	}
+	deadOK := map[string]bool{}
+	for _, n := range lock.DeadCanaries {
+		deadOK[n] = true
+	}
 	for _, c := range pr.canaries {
-		if c.Result == "unsat" {
+		if c.Result == "unsat" && !deadOK[c.Name] {
 			ob := &Obligation{Name: c.Name, Kind: "vacuity", Result: "vacuous", Raw: "vacuity canary refuted: the hypotheses at this point are contradictory, so every obligation after it would hold vacuously"}
 			report(ob, "vacuity canary")
 		}
@@ -441,6 +446,7 @@ func cmdLock(jobs int) int {
 	}
 	lock := &LockFile{Note: "obligations that exist and are discharged on the unchanged tree; a check fails when one of them is no longer generated. Rewritten only by 'govc lock'.", Obligations: map[string][]string{}}
 	rc := 0
+	dead := map[string]bool{}
 	for _, p := range propsList() {
 		pr := s.collect(p)
 		var smtObs []*Obligation
@@ -462,6 +468,13 @@ func cmdLock(jobs int) int {
 				break
 			}
 			s.solver.Solve(again, false, 10, 2)
+		}
+		s.solver.SolveCanaries(pr.canaries, jobs)
+		for _, c := range pr.canaries {
+			if c.Result == "unsat" && strings.Contains(c.Name, "/canary:loop") {
+				// only loop-body reachability probes may be dead on the unchanged tree; entry / return probes never
+				dead[c.Name] = true
+			}
 		}
 		var names []string
 		for _, ob := range pr.obs {
@@ -486,6 +499,7 @@ func cmdLock(jobs int) int {
 			lock.Obligations[p] = names
 		}
 	}
+	lock.DeadCanaries = sortedKeys(dead)
 	b, _ := json.MarshalIndent(lock, "", " ")
 	if err := os.WriteFile(filepath.Join(verifDir, "obligations.lock.json"), b, 0o644); err != nil {
 		fmt.Fprintln(os.Stderr, err)
